@@ -8,7 +8,7 @@ def plan(tier, seed):
     q = tier == "quick"
     conds = []
     if q:
-        combos = [("action", "", 1, 0), ("test", "x-ext", 1, 0), ("action", "x-ext", 0, 0), ("test", "", 1, 0)]
+        combos = [("action", "", 1, 0), ("test", "x-ext", 1, 0), ("action", "x-ext", 0, 0)]
         k = 3
     else:
         combos = [(r, e, req, two) for r in ("action", "test") for (e, req) in (("", 1), ("x-ext", 1), ("x-ext", 0))
